@@ -127,8 +127,7 @@ class Check:
     # ------------------------------------------------------------------ coq
     def coq_make(self, targets, timeout=1500):
         """(Re)build .vo targets (paths relative to coq/, e.g. 'proof/C17_proof.vo')."""
-        if not os.path.exists(os.path.join(COQ, "Makefile")):
-            sh("coq_makefile -f _CoqProject -o Makefile", cwd=COQ)
+        coq_makefile()
         cmd = ["make", "-j", str(NPROC)] + list(targets)
         self.checker_cmds.append("cd coq && " + " ".join(cmd))
         rc, out = sh(cmd, cwd=COQ, timeout=timeout)
@@ -272,6 +271,38 @@ class Check:
               f"distinct={cov['distinct_nontrivial']} violations={len(real)} known={len(self.known)} "
               f"wall={ev['wall_s']}s", flush=True)
         return 1 if real else 0
+
+
+def coq_makefile():
+    """(Re)write coq/Makefile for the .v files present now (gen/ is regenerated per run)."""
+    files = []
+    for d in ("lib", "model", "gen", "proof", "props"):
+        dd = os.path.join(COQ, d)
+        if os.path.isdir(dd):
+            files += sorted(f"{d}/{f}" for f in os.listdir(dd) if f.endswith(".v"))
+    stamp = os.path.join(COQ, ".filelist")
+    cur = "\n".join(files)
+    try:
+        old = open(stamp).read()
+    except OSError:
+        old = None
+    if old != cur or not os.path.exists(os.path.join(COQ, "Makefile")):
+        sh(["coq_makefile", "-f", "_CoqProject", "-o", "Makefile"] + files, cwd=COQ)
+        with open(stamp, "w") as f:
+            f.write(cur)
+
+
+def run_impl(script, payload, timeout=600, env=None, python=None):
+    """Run harness/impl/<script> under the repo's interpreter with PYTHONPATH=/repo;
+    payload (json-able) on stdin, JSON on stdout."""
+    e = repo_env(env)
+    rc, out = sh([python or PY, os.path.join(VERIF, "harness", "impl", script)], timeout=timeout,
+                 env=e, input=json.dumps(payload))
+    if rc != 0:
+        raise RuntimeError(f"impl script {script} failed rc={rc}: {out[-2000:]}")
+    # last line is the JSON document
+    line = out.strip().splitlines()[-1]
+    return json.loads(line)
 
 
 def tail(s, n):
